@@ -148,6 +148,17 @@ CHECKS = {
         "checked by sizes only; for PUB only wholeness is demanded (drops allowed).",
    technique="TLA+ spec (Ingress.tla, Engine.tla) + TLC; histories replayed on the real ingress engine; recorded socket frame streams checked against the property",
    design_ref="DESIGN.md 5 (C02)"),
+ "C14": dict(
+   text="TLC checks Hwm.tla (bounded path, send() with SNDTIMEO in {-1,0,T} against a consumer that drains when it pleases, "
+        "integer clock): Timeo0, TimeoPos, TimeoInf, Bound, RefusedNotDelivered, DeliveredPrefix; and Session.tla's EgressBound. "
+        "Real sockets with a reader that stalls and later starts (PUSH/PULL, DEALER/ROUTER, PUB/SUB; tcp/ipc/inproc; HWM 1..256): "
+        "every send()/recv() is recorded with its timeout option, result and duration and validated by TLC against the timeout "
+        "clauses (Trace_Timeo); messages accepted while the reader stalls are counted against 2*SNDHWM + 2*RCVHWM + 16 + kernel "
+        "allowance; the histories with refusals are validated against Delivery.tla.",
+   note="Lower timing bounds exact to 2 ms, upper bounds + 2 s; kernel buffers limited with SO_SNDBUF/SO_RCVBUF and granted an "
+        "allowance of 4x their sum.",
+   technique="TLA+ spec (Hwm.tla, Session.tla, Delivery.tla) + TLC; TLC trace validation of recorded API calls (timeouts) and delivery histories",
+   design_ref="DESIGN.md 5 (C14)"),
 }
 
 NA_DEFAULT = "check not built yet (construction in progress; see DESIGN.md section 10)"
